@@ -70,6 +70,9 @@ def gen_case(run, i):
         choice['nodata'] = dict(how=rng.choice(['flag', 'both']), flag=rng.choice([0.1, -9999.9, 1e-300]), conf=None)
         if choice['nodata']['how'] == 'both':
             choice['nodata']['conf'] = 0.3
+    if i % 5 == 1:
+        # the kernel shape from the configuration file only: it reaches the command as a yaml list, not as click's tuple
+        choice['kernel_shape'] = dict(how='conf', flag=None, conf=rng.choice([(3, 5), (5, 3), (7, 5)]))
     if i % 8 == 3:
         # an explicit null on the command line against a number in the file: the command line wins (finding D60, repaired)
         choice['nodata'] = dict(how='both', flag=None, conf=rng.choice([0.0, -9999.0]))
@@ -261,7 +264,9 @@ def run_api(case, eff, pair, d, src, ref):
                             force=bool(case['bands'])) as rf:
                 # a kernel shape that comes from the YAML file reaches the API as a list, from click as a tuple
                 ks = list(e['kernel_shape']) if case['choice']['kernel_shape']['how'] == 'conf' else tuple(e['kernel_shape'])
-                post = utils.create_out_postfix(rf.proc_crs, model=e['model'], kernel_shape=ks, driver='GTiff')
+                # (the name of the API run's own output is the harness's business: computed from a tuple, so that a helper that
+                # cannot cope with the list is not mistaken for the API refusing the settings)
+                post = utils.create_out_postfix(rf.proc_crs, model=e['model'], kernel_shape=tuple(ks), driver='GTiff')
                 corr = d / 'api' / (pair.src_path.stem + post)
                 param = utils.create_param_filename(corr) if e['param_image'] else None
                 rf.process(corr, Model(e['model']), ks, param_filename=param, build_ovw=e['build_ovw'], overwrite=e['overwrite'],
